@@ -42,6 +42,16 @@ def rejections(model, scope):
                     cond = q.test
                 if isinstance(q, ast.ExceptHandler):
                     handler = True
+                if cond is None and not isinstance(q, ast.If):
+                    # no enclosing test: ``if ok: return`` (or continue / break) in front of the raise in the same block is one
+                    for field in ('body', 'orelse', 'finalbody'):
+                        block = getattr(q, field, None)
+                        if isinstance(block, list) and any(b is p for b in block):
+                            idx = [i for i, b in enumerate(block) if b is p][0]
+                            for b in reversed(block[:idx]):
+                                if isinstance(b, ast.If) and not b.orelse and b.body and isinstance(b.body[-1], (ast.Return, ast.Continue, ast.Break)):
+                                    cond = b.test
+                                    break
                 p = q
             if handler:
                 continue
@@ -59,13 +69,24 @@ def rejections(model, scope):
                             for d in ast.walk(f.node):
                                 if isinstance(d, ast.Assign) and len(d.targets) == 1 and isinstance(d.targets[0], ast.Name) and d.targets[0].id == x.id:
                                     todo.append(d.value)
+                                elif isinstance(d, ast.Assign) and len(d.targets) == 1 and isinstance(d.targets[0], (ast.Tuple, ast.List)) and \
+                                        any(isinstance(t, ast.Name) and t.id == x.id for t in d.targets[0].elts):
+                                    todo.append(d.value)        # ``q, r = divmod(parser['x'], 16)``
                                 elif isinstance(d, (ast.For, ast.While)) and any(
                                         isinstance(c, ast.Call) and isinstance(c.func, ast.Attribute) and c.func.attr in ('append', 'extend', 'insert', 'add')
                                         and isinstance(c.func.value, ast.Name) and c.func.value.id == x.id for c in ast.walk(d)):
                                     # a collection filled in a loop: how much it holds is decided by what bounds the loop
                                     todo.append(d.iter if isinstance(d, ast.For) else d.test)
-            out.setdefault(f.construct, []).append(('%s[%s]' % (exc, ','.join(sorted(keys))), n))
+            out.setdefault(owner_construct(f), []).append(('%s[%s]' % (exc, ','.join(sorted(keys))), n))
     return out
+
+
+def owner_construct(f):
+    """rejections are tabulated per class (``path:Class``), so that moving a check into a helper method of the same class does
+    not change its key; module level functions keep their own name"""
+    if f.cls is not None:
+        return '%s:%s' % (f.module.relpath, f.cls.name)
+    return f.construct
 
 
 def check(ctx, report, rule, scope, only=None, title=None, skip=None):
